@@ -427,15 +427,48 @@ def prop_of(e, subst=None):
 
 
 def implies(premise, conclusion, max_atoms=16):
-    """True / False / None(undecidable: too many atoms)."""
-    atoms = sorted(premise.atoms() | conclusion.atoms())
-    if len(atoms) > max_atoms:
-        return None
-    for vals in itertools.product((False, True), repeat=len(atoms)):
-        env = dict(zip(atoms, vals))
-        if premise.ev(env) and not conclusion.ev(env):
-            return False
-    return True
+    """True / False / None(undecidable: too many atoms).  A premise that is a
+    conjunction is first restricted to the conjuncts that share atoms with the
+    conclusion (dropping conjuncts only weakens the premise, so a proof found this way
+    is sound; a failure is re-tried with the full premise when that is small enough)."""
+    def _tt(prem, concl):
+        atoms = sorted(prem.atoms() | concl.atoms())
+        if len(atoms) > max_atoms:
+            return None
+        for vals in itertools.product((False, True), repeat=len(atoms)):
+            env = dict(zip(atoms, vals))
+            if prem.ev(env) and not concl.ev(env):
+                return False
+        return True
+    conj = _flatten_and(premise)
+    # connected component (by shared atoms) of the conclusion within the conjuncts: the
+    # other conjuncts talk about disjoint atoms, so they can only matter by being
+    # unsatisfiable on their own, i.e. if the code were unreachable - not assumed.
+    ca = set(conclusion.atoms())
+    rel, rest = [], list(conj)
+    changed = True
+    while changed:
+        changed = False
+        for c in list(rest):
+            if c.atoms() & ca:
+                rel.append(c)
+                rest.remove(c)
+                ca |= c.atoms()
+                changed = True
+    if rest:
+        r = _tt(Prop("and", rel) if rel else P_TRUE, conclusion)
+        if r is not None:
+            return r
+    return _tt(premise, conclusion)
+
+
+def _flatten_and(p):
+    if p.kind == "and":
+        out = []
+        for a in p.args:
+            out += _flatten_and(a)
+        return out
+    return [p]
 
 
 # --------------------------------------------------------------------------------------
@@ -468,7 +501,7 @@ def names_in(e):
     return {n.id for n in ast.walk(e) if isinstance(n, ast.Name)}
 
 
-def path_condition(node, stop=None, subst=None):
+def path_condition(node, stop=None, subst=None, cross_loops=False):
     """Conjunction (list of Prop) of conditions that must hold on every path reaching
     `node` *within the current iteration of the innermost loop*: tests of enclosing ifs
     with polarity and negations of earlier sibling `if c: <never falls through>`,
@@ -502,10 +535,30 @@ def path_condition(node, stop=None, subst=None):
                 conds.append(prop_of(p.test, subst))
             elif blk is p.orelse:
                 conds.append(P_not(prop_of(p.test, subst)))
-        if isinstance(p, (ast.FunctionDef, ast.AsyncFunctionDef, ast.For, ast.While)):
+        if isinstance(p, (ast.FunctionDef, ast.AsyncFunctionDef)):
+            break
+        if isinstance(p, (ast.For, ast.While)):
+            if not cross_loops:
+                break
+            # conditions established outside the loop stay valid inside it only for
+            # names the loop does not re-bind
+            rebound = stores_in([p])
+            n = p
+            outer = path_condition(p, stop=stop, subst=subst, cross_loops=True)
+            for c in outer:
+                if not (_prop_names(c) & rebound):
+                    conds.append(c)
             break
         n = p
     return conds
+
+
+def _prop_names(p):
+    import re
+    out = set()
+    for a in p.atoms():
+        out.update(re.findall(r"[A-Za-z_]\w*", a))
+    return out
 
 
 # --------------------------------------------------------------------------------------
